@@ -14,7 +14,7 @@ def setup():
     C.build_tools()
     C.hook_path()
     # regenerate every translated file the development depends on, then a full .vo build
-    for mod in ("c05", "regexfam", "lrfam", "clifam", "actfam"):
+    for mod in ("c05", "regexfam", "lrfam", "clifam", "actfam", "utf8fam"):
         m = importlib.import_module("vcheck." + mod)
         if hasattr(m, "regen"):
             m.regen()
